@@ -153,6 +153,8 @@ def configs(tier):
         for sh in ("u8", "s8") + (("s5",) if tier == "thorough" else ()):
             for init in (0, 0x5A, 0x80) if tier == "thorough" else (0x5A,):
                 out.append(dict(action=a, shape=sh, init=init & ((1 << shape_width(sh)) - 1)))
+    for a in stor:
+        out.append(dict(action=a, shape="s2", init=1, elab_twice=True))
     for a in ("R", "W", "ResRAW0", "ResRAWL", "ResR0WA", "ResR0W0"):
         for sh in ["u1", "u3", "s2", "enum2", "u0"] + (["flag3", "struct3"] if tier == "thorough" else []):
             out.append(dict(action=a, shape=sh))
